@@ -282,5 +282,6 @@ def classify(f, ctx):
     world = D.build_world(case["world"])
     exp = expected(case, world)
     r = KF.attribute(f, lambda caching: run(case, world, caching)[0], exp, mentioned_not_selected=False,
-                     compare=lambda got, e: H.diff_kind(got, e, ordered=False, multiset=not case.get("sel_free")))
+                     compare=lambda got, e: H.diff_kind(got, e, ordered=False, multiset=not case.get("sel_free")),
+                     nvars=0 if case.get("corr") else len(case["kinds"]))
     return r if r == "K05" else None
